@@ -107,6 +107,14 @@ def classify(res, linemap, fname):
             infra.append(f"{msg} @ line {ln} ({oid})")
     if res["rc"] == -9:
         infra.append("verus timed out")
+    if "panicked at" in res["raw_err"] or "internal compiler error" in res["raw_err"]:
+        m = re.search(r"panicked at [^\n]*\n[^\n]*", res["raw_err"])
+        infra.append("verus crashed (unsupported construct): " + (m.group(0).replace("\n", " ") if m else "panic"))
+    vr = (res["json"] or {}).get("verification-results", {})
+    if res["json"] is not None and not vr.get("success", False) and not failed and not infra and not rl:
+        infra.append("verus reported failure without a classifiable diagnostic: " + res["raw_err"][-300:].replace("\n", " "))
+    if res["json"] is not None and vr.get("success", False) and vr.get("verified", 0) == 0:
+        infra.append("verus verified 0 functions")
     if res["json"] is None and not failed and not infra:
         infra.append("verus produced no JSON result: " + res["raw_err"][-400:])
     return {"failed": failed, "infra": infra, "rlimit": rl}
